@@ -121,7 +121,9 @@ class ChildResult(object):
 
 class Shim(object):
     def __init__(self):
-        self.p = subprocess.Popen([SHIM], stdin=subprocess.PIPE, stdout=subprocess.PIPE, bufsize=1 << 16)
+        env = dict(os.environ)
+        env['RUST_BACKTRACE'] = '0'
+        self.p = subprocess.Popen([SHIM], stdin=subprocess.PIPE, stdout=subprocess.PIPE, bufsize=1 << 16, env=env)
 
     def close(self):
         try:
